@@ -26,6 +26,10 @@ fn recv_enabled(t: &RecvTransaction<ModelFs>) -> bool {
 
 /// sender that has just transmitted its EOF (normal or cancel) through the real `send_pdu`
 fn sender_after_eof(cancelled: bool, ch: &Chans) -> SendTransaction<ModelFs> {
+    sender_after_eof_c(cancelled, 0, ch)
+}
+/// `ack_count`: expirations already counted on the ACK timer (2 = the limit: the cancel came from the limit fault)
+fn sender_after_eof_c(cancelled: bool, ack_count: u32, ch: &Chans) -> SendTransaction<ModelFs> {
     verif::set_now(Duration::from_secs(NOW));
     let mut p = send_parts(config(A), metadata(false, 0, false, ChecksumType::Modular, vec![]), ch);
     p.checksum = Some(0);
@@ -34,6 +38,10 @@ fn sender_after_eof(cancelled: bool, ch: &Chans) -> SendTransaction<ModelFs> {
         p.send_state = VSendState::Cancelled;
         p.condition = Condition::CancelReceived;
         p.eof = Some((EndOfFile { condition: Condition::CancelReceived, checksum: 0, file_size: 0, fault_location: Some(VariableID::from(SRC_ID)) }, true));
+        if ack_count > 0 {
+            // as left by the limit fault: counted to the limit at this very tick, flag still set, running
+            p.timer.ack = counter(3, 2, NOW, ack_count, true, false);
+        }
     } else {
         p.send_state = VSendState::SendEof;
         p.eof = Some((EndOfFile { condition: Condition::NoError, checksum: 0, file_size: 0, fault_location: None }, true));
@@ -52,11 +60,13 @@ fn ack_eof(cond: Condition) -> PDU {
         transaction_status: TransactionStatus::Active,
     }))
 }
-fn send_step(cancelled: bool) {
+fn send_step(cancelled: bool, with_pdus: bool) {
     let ch = chans();
     let mut t = sender_after_eof(cancelled, &ch);
     assert!(send_enabled(&t), "after EOF the ACK timer guards the wait");
-    let step: u8 = kani::any();
+    // ★ every by-value `process_pdu` on the acknowledged-mode sender makes CBMC execute the NAK arm on garbage
+    // (DESIGN 2.3 rule 7): the PDU steps are thorough-tier only
+    let step: u8 = if with_pdus { kani::any() } else { 1 };
     kani::assume(step < 3);
     let dt: u64 = kani::any();
     kani::assume(dt <= 7);
@@ -86,13 +96,17 @@ fn send_step(cancelled: bool) {
     forget(t);
     forget(ch);
 }
-//# funcs=SendTransaction::send_pdu(SendEof),process_pdu(Ack|KeepAlive),handle_timeout,has_pdu_to_send,until_timeout; bound=sender after its EOF was sent; one step: ACK(EOF) | timeout at +0..7 s | keep-alive; stubs=S1,S2,S3
-th!(c03_q_send_after_eof, 10, { send_step(false) });
-//# funcs=SendTransaction::send_pdu(Cancelled),process_pdu(Ack),handle_timeout,has_pdu_to_send,until_timeout; bound=cancelled sender after EOF(cancel) was sent; one step as above; stubs=S1,S2,S3
-th!(c03_q_send_after_cancel_eof, 10, { send_step(true) });
+//# funcs=SendTransaction::send_pdu(SendEof),handle_timeout,handle_fault,has_pdu_to_send,until_timeout; bound=sender after its EOF was sent; a timeout tick at +0..7 s; stubs=S1,S2,S3
+th!(c03_q_send_after_eof_timeout, 10, { send_step(false, false) });
+//# funcs=SendTransaction::send_pdu(Cancelled),handle_timeout,abandon,has_pdu_to_send,until_timeout; bound=cancelled sender after EOF(cancel) was sent; a timeout tick at +0..7 s; stubs=S1,S2,S3
+th!(c03_q_send_after_cancel_eof_timeout, 10, { send_step(true, false) });
+//# funcs=SendTransaction::process_pdu(Ack|KeepAlive),handle_timeout; bound=sender after EOF; one step: ACK(EOF) | timeout | keep-alive (may be inconclusive: the NAK arm of process_pdu is executed on garbage); stubs=S1,S2,S3,S6
+th!(#[kani::stub(<std::hash::DefaultHasher as std::hash::Hasher>::finish, crate::c07::hasher_finish_stub)] c03_t_send_after_eof_pdus, 5, { send_step(false, true) });
+//# funcs=SendTransaction::process_pdu(Ack),handle_timeout; bound=cancelled sender after EOF(cancel); one step: ACK(EOF) | timeout | keep-alive (may be inconclusive); stubs=S1,S2,S3,S6
+th!(#[kani::stub(<std::hash::DefaultHasher as std::hash::Hasher>::finish, crate::c07::hasher_finish_stub)] c03_t_send_after_cancel_eof_pdus, 5, { send_step(true, true) });
 
 //# funcs=SendTransaction::process_pdu(Finished),send_pdu(Finished),send_ack; bound=sender receives Finished in SendEof or Cancelled, then sends the ACK: terminated; stubs=S1,S2,S3
-th!(c03_q_send_finished_terminates, 10, {
+th!(#[kani::stub(<std::hash::DefaultHasher as std::hash::Hasher>::finish, crate::c07::hasher_finish_stub)] c03_t_send_finished_terminates, 5, {
     let ch = chans();
     let mut t = sender_after_eof(kani::any(), &ch);
     let fin = Finished { condition: any_condition(), delivery_code: DeliveryCode::Complete, file_status: FileStatusCode::Unreported, filestore_response: vec![], fault_location: None };
@@ -177,7 +191,7 @@ th!(c03_q_recv_after_finished, 10, { recv_step(false) });
 th!(c03_q_recv_after_cancel_finished, 10, { recv_step(true) });
 
 //# funcs=RecvTransaction::new,process_pdu(EoF|FileData),handle_timeout,until_timeout; bound=fresh receiver (real constructor), one PDU (EOF for an n-byte file, or data), then a timeout tick at +0..12 s; stubs=S1,S2,S3,S5
-th!(c03_q_recv_data_phase, 10, {
+th!(c03_t_recv_data_phase, 10, {
     let ch = chans();
     link_libc();
     verif::set_now(Duration::from_secs(NOW));
@@ -204,6 +218,22 @@ th!(c03_q_recv_data_phase, 10, {
     );
     assert!(recv_enabled(&t));
     kani::cover!(dt >= 10, "inactivity expiry");
+    forget(t);
+    forget(ch);
+});
+
+
+//# funcs=SendTransaction::send_pdu(Cancelled),send_eof,handle_timeout(Cancelled),abandon,Counter::update; bound=sender cancelled by the ACK-limit fault (count already at the limit), EOF(cancel) sent, peer silent: the next ACK-timer expiry (tick at +3..7 s) ends the transaction; stubs=S1,S2,S3
+th!(c03_q_send_fault_cancel_terminates, 10, {
+    let ch = chans();
+    let mut t = sender_after_eof_c(true, 2, &ch);
+    assert!(send_enabled(&t), "the ACK timer guards the wait for the ACK of EOF(cancel)");
+    let dt: u64 = kani::any();
+    kani::assume(dt >= 3 && dt <= 7);
+    verif::set_now(Duration::from_secs(NOW + dt));
+    t.handle_timeout().unwrap();
+    assert!(verif::send_state(&t) == TransactionState::Terminated, "bounded: a cancelled sender whose peer stays silent is abandoned at the next expiry");
+    kani::cover!(true, "end");
     forget(t);
     forget(ch);
 });
